@@ -22,7 +22,7 @@ def cdeep(t):
 def run(chk, tier):
     P = Prog("default")
     chk.configs.add("default")
-    for r in (r_zones, r_year_rule, r_reader_widths, r_writer, r_weekday, r_absint, r_flow, r_own_ranges, r_comments):
+    for r in (r_zones, r_year_rule, r_reader_widths, r_writer, r_weekday, r_absint, r_flow, r_own_ranges, r_comments, r_colon_ws):
         chk.guarded(r, P, tier)
     chk.assume("optional-part acceptance, comments, white-space runs and the values returned (the round trip) are NOT decided")
     return {
@@ -240,3 +240,22 @@ def r_comments(chk, P, tier):
         raise AnchorLost("parse_rfc2822: no accepting path")
     bad = [p_ for p_ in oks if not any(isinstance(c[1], str) and c[1].endswith("scan::comment_2822") for c in p_.calls)]
     chk.expect(not bad, "comment scan", "parse_rfc2822 accepts on %d of %d paths without trying scan::comment_2822 (a comment after other white space would be rejected as trailing text)" % (len(bad), len(oks)), loc=P.loc(fn))
+
+
+def r_colon_ws(chk, P, tier):
+    """RFC 2822 (4.3, obs-hour / obs-minute / obs-second) allows folding white space on either side of the time-of-day colons; the reader implements
+    `*S ":"` by probing for the colon on the white-space-trimmed rest. Both colon probes (hour:minute and the optional :second) must do so."""
+    chk.rule("SIB.colon_ws", "every scan::char(.., ':') probe of parse_rfc2822 is applied to a trim_start()ed rest (white space before either time colon is skipped)", floor=2)
+    fn = "format::parse::parse_rfc2822"
+    sites = {}
+    for p_ in Sym(P, fn).paths(max_paths=20000):
+        for c in p_.calls:
+            if isinstance(c[1], str) and c[1].endswith("scan::char") and const_of(c[2][1]) == 58:
+                a = c[2][0]
+                while a[0] in ("ref", "deref"):
+                    a = a[1]
+                sites.setdefault(c[3:], set()).add(is_call(a, suffix="::trim_start"))
+    if len(sites) < 2:
+        raise AnchorLost("parse_rfc2822: %d colon probes found, expected the hour:minute and the optional :second probe" % len(sites))
+    for i, (site, vs) in enumerate(sorted(sites.items(), key=lambda kv: str(kv[0]))):
+        chk.expect(vs == {True}, "colon probe #%d" % (i + 1), "parse_rfc2822 probes for a time colon without skipping the white space before it (colon probe #%d in source order)" % (i + 1), loc=P.loc(fn))
